@@ -6,7 +6,7 @@ ROOT = os.path.dirname(os.path.dirname(os.path.abspath(__file__)))
 base = json.load(open('/root/.vp/BASELINE.json'))
 
 TB = ("real bbolt/bdb on tmpfs; faults are injected at the walletdb interface (k-th write, commit failure, panic), "
-      "not below bbolt; Go map iteration order inside btcwallet is not seed-controlled; a clean batch is evidence over the sampled seeds, not proof")
+      "not below bbolt; a clean batch is evidence over the sampled seeds, not proof")
 
 # id -> (engine, level, technique, text, note, design_ref)
 CHECKS = {
@@ -58,6 +58,27 @@ CHECKS["C19"] = ("migsim", "fault_enumeration",
   "For every generated (version table, stored version) the upgrade is run fault-free and then once per migration position p (that migration fails after partial writes), once per mutating database call k until the fault no longer fires, and once with a failing commit — all inside one walletdb.Update as wallet.OpenWithRetry does. Oracle: the trace of applied migrations is exactly the ascending list of versions above the stored one, the stored version ends at latest, and after any failure the stored version and the whole bucket dump are unchanged; a newer-than-known version is refused (migration.ErrReversion; wtxmgr/waddrmgr/wallet.Open on a real wallet database) with the file bytes unchanged. fault_enumeration: per case all p and all k are enumerated (counts in the evidence); the cases themselves are sampled.",
   "real old-format migrations of wtxmgr/waddrmgr are not run (they need old data); " + TB,
   "DESIGN.md §6 C19")
+
+LEDGER_TECH = "deterministic simulation: a real wtxmgr.Store on bbolt driven by the seeded event stream of a validating node over a generated transaction universe (mempool, blocks, rollbacks to every height, re-mining in other blocks, RBF, abandon, redelivery, leases on the simulated clock, reopen); reference ledger recomputed from facts after every event"
+CHECKS["C01"] = ("ledgersim", "exploration", LEDGER_TECH,
+  "After every event of a seeded chain-consistent history the store's Balance is compared with the ledger fold on a grid of 8 minimum-confirmation values x 5 sync heights around the maturity boundary, UnspentOutputs field by field (amount, block hash/height/time, coinbase flag, script) and OutputsToWatch by inclusion. The ledger keeps no running totals, so it cannot share the implementation's failure mode. Exploration over histories x graph shapes.",
+  "histories are restricted to what a validating node can emit (no two conflicting transactions in the mempool at once, parents before children); the wallet-level accessors (CalculateBalance/ListUnspent) are exercised by walletsim, not here. " + TB, "DESIGN.md §3.5, §6 C01")
+CHECKS["C02"] = ("ledgersim", "exploration", LEDGER_TECH + "; plus a second real store built directly from the final facts (path independence)",
+  "The ledger's transition rules are the sentences of the statement, checked after every event (unconfirmed set, known set, credits); at the end of each run a fresh real store receives only the final facts and must agree with the store that lived through the connect / disconnect / reconnect-in-other-order history on balances, spendable outputs, unconfirmed set and details of every universe transaction.",
+  "leases are not facts: the clock is advanced past every expiry before the two stores are compared. " + TB, "DESIGN.md §6 C02")
+CHECKS["C12"] = ("ledgersim", "exploration", LEDGER_TECH + "; lease model over the simulated clock with clock steps placed on and around expiry instants",
+  "Lease / release / extend / sweep / list operations by 2-3 identifiers interleaved with receipts, spends, confirmations, reorgs, reopen and clock advances chosen relative to live expiries (d-1, d, d+1); the lease model decides availability in Balance, UnspentOutputs and OutputsToWatch, the error values for foreign identifiers and unknown outputs, returned expiries, removal by a confirmed spend and survival of reopen.",
+  "expiry is stored in whole seconds: runs use whole-second clock steps; one run in eight uses sub-second steps and asserts nothing lease-dependent inside the sub-second window. " + TB, "DESIGN.md §6 C12")
+CHECKS["C13"] = ("ledgersim", "exploration", LEDGER_TECH + "; per-transaction details and range queries derived from the ledger",
+  "After every event, for every universe transaction TxDetails / UniqueTxDetails (own, nil, wrong block) must equal the ledger-derived details (block, credits with amount / change / spent flag, debits with amounts), PreviousPkScripts the scripts of debited credits, and RangeTransactions over fixed and random ranges in both directions must report each known transaction exactly once, in block order, honouring early stop.",
+  TB, "DESIGN.md §6 C13")
+CHECKS["C14"] = ("ledgersim", "exploration", LEDGER_TECH + "; map iteration order inside wtxmgr is a seeded choice (instrumented range-over-map), 8 different orders per query",
+  "After every event Store.UnminedTxs is called under 8 different seeded map-iteration orders and must return a permutation of the ledger's unconfirmed set with every transaction after each unconfirmed parent; DependencySort is additionally fed generated graphs (diamonds, duplicate edges, chains, independent roots, conflicting siblings, parents outside the set). Because range-over-map in wtxmgr is rewritten to a seeded order, an order-dependent failure replays exactly.",
+  TB, "DESIGN.md §3.2, §6 C14")
+CHECKS["C16"] = ("walletsim", "exploration",
+  "deterministic simulation: a chain generated to satisfy the look-ahead condition exactly (addresses derived independently from the seed), then the real wallet restored from the seed with recovery window W on the simulated backend (real BlockFilterer), with seeded interruptions of the recovery; completeness oracle against the generated chain",
+  "Blocks pay harness-derived addresses of the four default scopes and both branches with every index at most W-1 beyond the lowest index not yet paid in earlier blocks (jumps to the last index of the window are favoured), later blocks spend recovered outputs, block times have gaps of seconds to days, the birthday is at or before the first paying block; the restore runs locked or unlocked and is interrupted (Stop + reopen, or a lock request) at seeded scheduling points. Afterwards every paid address must be known and marked used, every paying / spending transaction recorded, the spendable set and balance equal the chain's, every branch's key count above the highest used index, and the first filtered block not later than the first paying block.",
+  "invalid BIP32 children (probability 2^-127) cannot be produced; chains longer than the 2000-block batch are generated in 1 run of 25. " + TB, "DESIGN.md §6 C16")
 
 NOT_APPLICABLE = [
  {"property_id": "C07", "reason": "pure function of its input (outputs, fee rate, coin list, change script): no schedule, clock, I/O, fault or history for a simulator to own; the deciding technique would be input enumeration/property-based testing, which is a different family (DESIGN.md §7)"},
